@@ -41,7 +41,11 @@ RULE = ('seeded lenses of 1-12 planes/spheres/conics (catalogue and ideal media,
         'random pupil points; every second lens has fields carrying vignetting factors vx/vy and gets all three mirrors incl. an '
         'off-axis field of either sign with an off-axis pupil point), tilt of a spherical surface about its centre of curvature |a| <= 0.3 rad about x or y, dummy plane '
         'at a random interior split of a random gap for every ray and at the two contact splits f = 0 / f = 1 (zero thickness) of '
-        'EVERY gap from behind surface 1 to the image for one ray per lens, wavelength change of an all-ideal lens, scale factors 10^u, u in [-2,2] '
+        'EVERY gap from behind surface 1 to the image AND of the object gap (the dummy becomes surface 1 and the vertex list is '
+        're-based) for one ray per lens; the transformed lens of the dummy and scale relations is built by a random public route '
+        '(direct / ready-made Surface objects / reused Optic after reset() / to_dict-from_dict); a fixed corpus of 8 lenses (finite '
+        'conjugates with the stop on and behind surface 1 under EPD / imageFNO / objectNA, an infinite-conjugate lens with planes) is '
+        'added to every seed, wavelength change of an all-ideal lens, scale factors 10^u, u in [-2,2] '
         '(half of them powers of two) by an independently built scaled lens and by Optic.scale_system (planes/conics, angular '
         'fields, with and without decentres); non-trivial = relation evaluated on a ray that reaches the image with finite data')
 PARTIAL = [
@@ -267,7 +271,9 @@ def gen_cases(ctx, nl, rays_per, seed_mul=11):
             'EPD_times_s': {'infinite object': {'<0.1': 0, '[0.1,1)': 0, '[1,10)': 0, '>=10': 0},
                             'finite object': {'<0.1': 0, '[0.1,1)': 0, '[1,10)': 0, '>=10': 0}},
             'dummy_split': {'interior': 0, 'contact_previous_vertex(f=0)': 0, 'contact_next_vertex(f=1)': 0},
-            'dummy_gap': {'first': 0, 'inner': 0, 'last(before image)': 0},
+            'dummy_gap': {'object gap (dummy becomes surface 1)': 0, 'first': 0, 'inner': 0, 'last(before image)': 0},
+            'corpus_lenses': 0, 'system_aperture': {}, 'stop_on_first_surface': 0,
+            'build_route_of_transformed_lens': {'direct': 0, 'handbuilt': 0, 'reuse': 0, 'roundtrip': 0},
             'dummy_skipped_plane_outside_gap': {'interior': 0, 'contact_previous_vertex(f=0)': 0, 'contact_next_vertex(f=1)': 0}}
 
     def add(kind, **kw):
@@ -277,14 +283,22 @@ def gen_cases(ctx, nl, rays_per, seed_mul=11):
     def skip(kind):
         hist['skipped_precondition'][kind] = hist['skipped_precondition'].get(kind, 0) + 1
 
-    for li in range(nl):
-        ideal = (li % 3 == 0)
-        spec = L.sym_spec(rng, ideal_only=ideal, angle_only=(li % 2 == 0))
+    rng_main = rng
+    rng_corpus = random.Random(ctx.seed * seed_mul + 101)
+    fixed = L.corpus()
+    for li in range(nl + len(fixed)):
+        is_corpus = li >= nl
+        rng = rng_corpus if is_corpus else rng_main
+        # draws introduced after the first release come from their own stream, so the lenses and rays of the main stream
+        # (and what they were shown to catch) do not move when a class is added
+        rngn = random.Random(ctx.seed * seed_mul + 1000 + li)
+        ideal = is_corpus or (li % 3 == 0)
+        spec = copy.deepcopy(fixed[li - nl]) if is_corpus else L.sym_spec(rng, ideal_only=ideal, angle_only=(li % 2 == 0))
         if ideal:
             for s_ in spec['surfaces']:
                 if isinstance(s_.get('material'), list) and s_['material'][0] == 'ideal':
                     s_['material'][2] = 0.0
-        vign = (li % 2 == 1)
+        vign = (li % 2 == 1) and not is_corpus
         if vign:
             # fields along y that carry vignetting factors (vx, vy), growing with the field as in a real lens
             mf = max(f[0] for f in spec['fields']) or rng.uniform(1.0, 8.0)
@@ -300,6 +314,9 @@ def gen_cases(ctx, nl, rays_per, seed_mul=11):
             hist['build_errors'] += 1
             continue
         hist['lenses'] += 1
+        hist['corpus_lenses'] += int(is_corpus)
+        hist['system_aperture'][spec['aperture'][0]] = hist['system_aperture'].get(spec['aperture'][0], 0) + 1
+        hist['stop_on_first_surface'] += int(bool(spec['surfaces'][0].get('is_stop')))
         w = [x for x, p in spec['wavelengths'] if p][0]
         surfs0 = lensgen.model_surfaces(o, w)
         nS = len(spec['surfaces'])
@@ -310,7 +327,7 @@ def gen_cases(ctx, nl, rays_per, seed_mul=11):
             epd0 = abs(float(np.ravel(o.paraxial.EPD())[0]))
         except Exception:   # noqa
             epd0 = float('nan')
-        rays = _rays(rng, rays_per)
+        rays = _rays(rng, 2 if is_corpus else rays_per)
         if vign:
             # an off-axis field point (either sign) with an off-axis pupil point, where the vignetting factors act
             rays.append((rng.choice([0.0, 0.0, 0.4, -0.4]), rng.choice([1.0, -1.0, 0.6, -0.6]),
@@ -352,7 +369,9 @@ def gen_cases(ctx, nl, rays_per, seed_mul=11):
                 for kind in (['scale', 'scale_system_rays'] if spec['field_type'] == 'angle' else ['scale']):
                     try:
                         if kind == 'scale':
-                            o2 = L.build(L.scaled_spec(spec, s))
+                            route2 = rngn.choice(['direct', 'handbuilt', 'reuse', 'roundtrip'])
+                            o2 = L.build(L.scaled_spec(spec, s), route2, rngn)
+                            hist['build_route_of_transformed_lens'][route2] += 1
                         else:
                             o2 = L.build(spec)
                             o2.scale_system(s)
@@ -383,28 +402,40 @@ def gen_cases(ctx, nl, rays_per, seed_mul=11):
                 for g_ in range(nS):
                     plan.append((g_, 0.0, 'contact_previous_vertex(f=0)'))
                     plan.append((g_, 1.0, 'contact_next_vertex(f=1)'))
+                # the OBJECT gap (-1): the dummy becomes surface 1, so every vertex is re-based and every first-order
+                # quantity that is measured "from the first surface" is put to the test
+                plan.append((-1, rngn.uniform(0.1, 0.9), 'interior'))
+                if not obj_inf:
+                    plan.append((-1, 1.0, 'contact_next_vertex(f=1)'))
+                    plan.append((-1, 0.0, 'contact_previous_vertex(f=0)'))
             for gap, frac, cls in plan:
-                sp = L.dummy_spec(spec, gap, frac)
+                sp = L.dummy_spec(spec, gap, frac, front=rngn.uniform(1.0, 30.0))
                 if sp is None:
                     continue
+                route = rngn.choice(['direct', 'handbuilt', 'reuse', 'roundtrip'])
                 try:
-                    o3 = L.build(sp)
+                    o3 = L.build(sp, route, rngn)
                     r3 = L.trace(o3, Hx, Hy, Px, Py, w)
-                except Exception:   # noqa
-                    r3 = ('err',)
+                except Exception as e:   # noqa
+                    r3 = ('err', type(e).__name__, str(e)[:100])
                 if r3[0] != 'ok':
+                    hist.setdefault('dummy_lens_errors', {}).setdefault(f'{route}:{r3[1]}', 0)
+                    hist['dummy_lens_errors'][f'{route}:{r3[1]}'] += 1
                     continue
+                hist['build_route_of_transformed_lens'][route] += 1
                 drec = r3[1][gap + 2]
                 a, b = recs0[gap + 1], recs0[gap + 2]
                 # precondition: the dummy plane is met between the two neighbouring intersections (a plane through the
                 # vertex of a curved neighbour cuts into it; for that ray it is not "in the gap")
                 t_tot = (b[7] - a[7])
+                if gap == -1 and obj_inf:
+                    t_tot = r3[1][2][7] - r3[1][0][7]        # the launch plane of an infinite object moves with the vertices
                 t_1 = (drec[7] - r3[1][gap + 1][7]) if _finite(drec) else float('nan')
                 ok_pre = _finite(a) and _finite(b) and _finite(drec) and -1e-9 <= t_1 <= t_tot + 1e-9
                 # a dummy in contact with a CURVED neighbour is tangent to it at the vertex: for a ray through (or within
                 # rounding of) the vertex the plane is in the gap or beyond the surface by ~r^2/2R ~ 1e-30, which binary64
                 # cannot tell; such rays are outside the precondition (a plane neighbour is an exact contact and is kept)
-                if ok_pre and frac == 0.0 and surfs0[gap]['shape'][0] != 'plane':
+                if ok_pre and frac == 0.0 and gap >= 0 and surfs0[gap]['shape'][0] != 'plane':
                     ok_pre = t_1 > 1e-7
                 if ok_pre and frac == 1.0 and surfs0[gap + 1]['shape'][0] != 'plane':
                     ok_pre = t_tot - t_1 > 1e-7
@@ -413,16 +444,29 @@ def gen_cases(ctx, nl, rays_per, seed_mul=11):
                     hist['dummy_skipped_plane_outside_gap'][cls] += 1
                     continue
                 recs = r3[1][:gap + 2] + r3[1][gap + 3:]
+                shift = float(o3.surface_group.surfaces[2 if gap == -1 else 1].geometry.cs.z) if gap == -1 else 0.0
+                if shift:
+                    recs = [r_[:2] + [r_[2] - shift] + r_[3:] for r_ in recs]
                 # from the first real surface on: the launch PLANE of an infinite object is placed from the vertex
-                # list (in front of every vertex), so the same ray may be recorded at another point of its line
-                d = max(L.rec_diff(x, y, scale=100) for x, y in zip(_rel_opd(recs0)[1:], _rel_opd(recs)[1:]))
+                # list (in front of every vertex), so the same ray may be recorded at another point of its line;
+                # a FINITE object launches from the object surface: launch point and absolute path are compared too
+                if obj_inf:
+                    d = max(L.rec_diff(x, y, scale=100) for x, y in zip(_rel_opd(recs0)[1:], _rel_opd(recs)[1:]))
+                else:
+                    d = max(L.rec_diff(x, y, scale=100) for x, y in zip(recs0, recs))
                 zd = float(o3.surface_group.surfaces[gap + 2].geometry.cs.z)
-                nd = surfs0[gap]['n2']
+                nd = surfs0[gap]['n2'] if gap >= 0 else surfs0[0]['n1']
                 hist['dummy_split'][cls] += 1
-                hist['dummy_gap']['first' if gap == 0 and nS > 1 else 'last(before image)' if gap == nS - 1 else 'inner'] += 1
-                add('dummy', params={'gap': gap, 'frac': frac, 'split': cls, 'zd': zd, 'n': nd,
-                                     'shift': float(o3.surface_group.surfaces[1].geometry.cs.z)},
-                    timpl=r3[1], direct=d, tol=1e-9, **common)
+                hist['dummy_gap']['object gap (dummy becomes surface 1)' if gap == -1 else 'first' if gap == 0 and nS > 1
+                                  else 'last(before image)' if gap == nS - 1 else 'inner'] += 1
+                cm = common
+                if gap == -1:
+                    # the model is given the re-based vertex list of the lens with the dummy (dummy removed) and re-inserts it
+                    ms = lensgen.model_surfaces(o3, w)
+                    cm = dict(common, surfs0=ms[1:])
+                add('dummy', params={'gap': gap, 'frac': frac, 'split': cls, 'zd': zd, 'n': nd, 'route': route,
+                                     'shift': 0.0, 'rebased_by': shift},
+                    timpl=r3[1], direct=d, tol=1e-9, **cm)
             # ---- tilt about the centre of curvature (same ray in, same ray out)
             idx = rng.randrange(nS)
             ang = rng.uniform(-0.3, 0.3)
